@@ -364,4 +364,11 @@ func runC17(tier string, seed uint64, out *Out) {
 	out.Line("%s", cacheRegionsRateScenario())
 	out.Line("%s", establisherRateScenario())
 	out.Line("%s", adminPollRateScenario())
+	nAdmin := 40
+	if tier != "quick" {
+		nAdmin = 400
+	}
+	for i := 0; i < nAdmin; i++ {
+		out.Line("%s", adminScriptCase(NewRNG(seed, fmt.Sprintf("c17admin-%d", i))))
+	}
 }
